@@ -833,6 +833,36 @@ type chainCase struct {
 	First []gen.ResultSpec `json:"first,omitempty"`
 	// the last step writes to a named pipe that is drained slowly (a consumer that falls behind)
 	SlowLast bool `json:"slow_last,omitempty"`
+	// a large input described by its generator (`Records` is then filled from it and left out of replay files)
+	Synth *synthSpec `json:"synth,omitempty"`
+	// the vegeta process starts with SIGINT ignored (background job of a non-interactive shell, nohup, supervisors)
+	IgnoreSIGINT bool `json:"ignore_sigint,omitempty"`
+}
+
+type synthSpec struct {
+	Seed int64 `json:"seed"`
+	N    int   `json:"n"`
+}
+
+// synthRecords: N small heterogeneous records, deterministic in the seed
+func synthRecords(sp synthSpec) []gen.ResultSpec {
+	r := kit.NewRng(sp.Seed)
+	rs := make([]gen.ResultSpec, sp.N)
+	for i := range rs {
+		rs[i] = gen.InterResult(r, uint64(i), -1)
+		if len(rs[i].Body) > 16 {
+			rs[i].Body = rs[i].Body[:16]
+		}
+	}
+	return rs
+}
+
+// inputOf: the case as it goes into a violation record
+func inputOf(cc chainCase) chainCase {
+	if cc.Synth != nil {
+		cc.Records = nil
+	}
+	return cc
 }
 
 func allChains(maxLen int) [][]string {
@@ -852,6 +882,13 @@ func allChains(maxLen int) [][]string {
 }
 
 func runChains(c *run.Ctx, s *kit.Summary, cases []chainCase) {
+	ignoreInt := false
+	for i := range cases {
+		if cases[i].Synth != nil && len(cases[i].Records) == 0 {
+			cases[i].Records = synthRecords(*cases[i].Synth)
+		}
+		ignoreInt = ignoreInt || cases[i].IgnoreSIGINT // one process per batch: callers do not mix
+	}
 	dir := filepath.Join(c.Work, "chains")
 	if err := os.MkdirAll(dir, 0o755); err != nil {
 		panic(err)
@@ -917,7 +954,7 @@ func runChains(c *run.Ctx, s *kit.Summary, cases []chainCase) {
 			prev = out
 		}
 	}
-	outs, hungAt, err := gen.RunVegetaGuarded(c.Vegeta, ops, 90*time.Second)
+	outs, hungAt, err := gen.RunVegetaGuardedEnv(c.Vegeta, ops, 90*time.Second, ignoreInt)
 	if err != nil {
 		s.Diverge("chains", "(vegeta-verif failure)", "", err.Error())
 		return
@@ -956,18 +993,18 @@ func runChains(c *run.Ctx, s *kit.Summary, cases []chainCase) {
 			if f := strings.Fields(msg); len(f) == 2 {
 				msg = f[0] + " " + string(kit.UnHex(f[1]))
 			}
-			s.Violate(kit.Violation{Kind: "chain_encode_failed", What: "encode command failed inside a transcoding chain", Input: cc, Observed: msg, Key: key})
+			s.Violate(kit.Violation{Kind: "chain_encode_failed", What: "encode command failed inside a transcoding chain", Input: inputOf(cc), Observed: msg, Key: key})
 			failed[st.ci] = true
 			continue
 		}
 		raw, err := os.ReadFile(st.file)
 		if err != nil {
-			s.Violate(kit.Violation{Kind: "chain_no_output", What: "encode wrote no output", Input: cc, Observed: err.Error(), Key: key})
+			s.Violate(kit.Violation{Kind: "chain_no_output", What: "encode wrote no output", Input: inputOf(cc), Observed: err.Error(), Key: key})
 			failed[st.ci] = true
 			continue
 		}
 		if kind, obs := drainCompare(factoryOf(cc.Chain[st.k])(bytes.NewReader(raw)), toResults(cc.Records)); kind != "" {
-			s.Violate(kit.Violation{Kind: "chain_" + strings.TrimPrefix(kind, "detect_"), What: "output of a transcoding chain does not decode to the original sequence", Input: cc,
+			s.Violate(kit.Violation{Kind: "chain_" + strings.TrimPrefix(kind, "detect_"), What: "output of a transcoding chain does not decode to the original sequence", Input: inputOf(cc),
 				Observed: fmt.Sprintf("after step %d (%s): %s", st.k+1, cc.Chain[st.k], obs), Key: key})
 			failed[st.ci] = true
 		}
@@ -1187,6 +1224,21 @@ func runC08(c *run.Ctx, s *kit.Summary) {
 		s.Count(fmt.Sprintf("chain:long_input_records>=%d", n/100*100))
 	}
 	runChains(c, s, long)
+	// a LARGE input (tens of thousands of small records, generated once; the conversion runs for well over the
+	// runtime's 10 ms preemption interval), converted by a process started normally and by one started with
+	// SIGINT ignored
+	big := synthSpec{Seed: c.Seed*7919 + 13, N: c.N(60000, 250000)}
+	bigRecords := synthRecords(big)
+	mk := func(start string, ch []string, ign bool) chainCase {
+		s.Count(fmt.Sprintf("chain:large_input_records>=%d,sigint_ignored=%v", big.N/10000*10000, ign))
+		return chainCase{Records: bigRecords, Synth: &big, Start: start, Chain: ch, IgnoreSIGINT: ign}
+	}
+	runChains(c, s, []chainCase{mk("gob", []string{"json"}, false)})
+	ign := []chainCase{mk("gob", []string{"csv"}, true), mk("csv", []string{"gob"}, true)}
+	if c.Tier == "thorough" {
+		ign = append(ign, mk("json", []string{"gob", "json"}, true), mk("gob", []string{"gob"}, true))
+	}
+	runChains(c, s, ign)
 	phase("chains")
 	runCLIGarbage(c, s, r)
 	phase("cli-garbage")
